@@ -507,6 +507,39 @@ func TestC19(t *testing.T) {
 			}
 		}
 	}
+	if depth == 2 {
+		// quick tier: depth 3 for the sequences that start with a plain Allocate of the first client
+		// (the state in which retransmissions, 437 and refreshes mean something)
+		first := -1
+		for i, f := range fs {
+			if f.name == "alloc" && f.tx == "" {
+				first = i
+
+				break
+			}
+		}
+		for _, wd := range worlds() {
+			alpha := len(fs) * len(wd.clients)
+			for code := 0; first >= 0 && code < alpha*alpha; code++ {
+				idx++
+				if idx%n != shard {
+					continue
+				}
+				if r.OverBudget("c19 sequences (depth 3 after Allocate)") {
+					return
+				}
+				seq := []int{first, code % alpha, code / alpha}
+				v, trace, steps := runSeq(t, wd, fs, seq, r, true)
+				r.Evaluations++
+				r.Transitions += int64(len(trace))
+				r.State(fmt.Sprint(wd.name, trace))
+				if v != nil {
+					r.Violate(rep.Violation{Oracle: "c19", Signature: v.sig, Detail: v.detail,
+						Replay: map[string]any{"engine": "vtx-c19", "world": wd.name, "steps": steps, "seq": seq}})
+				}
+			}
+		}
+	}
 	r.Depth = depth
 }
 
